@@ -175,6 +175,17 @@ func datumClause(r *vproto.Rng, f frame) string {
 	case 6, 7:
 		return strings.TrimSpace(ellpsClause(r) + " " + towgs84(r, 7))
 	case 8:
+		// a WGS84-type datum, also on an explicit ellipsoid and with the code in lower case: as the
+		// destination of a shifted source the port goes there directly (fix b165df1: the code is compared
+		// case-insensitively) where proj4js 2.3.12 (literal comparison) goes through its WGS84 object
+		switch r.Intn(4) {
+		case 0:
+			a := rd(6360000+float64(r.Intn(30))*1000, 0)
+			return "+datum=" + []string{"wgs84", "WGS84"}[r.Intn(2)] + " +a=" + ff(a, 0) + " +rf=" + ff(rd(290+r.Float()*20, 6), 6)
+		case 1:
+			a := rd(6360000+float64(r.Intn(30))*1000, 0)
+			return "+datum=" + []string{"wgs84", "WGS84"}[r.Intn(2)] + " +a=" + ff(a, 0) + " +b=" + ff(a, 0)
+		}
 		return "+ellps=WGS84 +datum=WGS84"
 	default:
 		return "+datum=" + datums[r.Intn(16)]
@@ -656,6 +667,17 @@ func corpus(w *bufio.Writer) {
 		put(l)
 	}
 	put("trd2" + trLine([]string{wgs, kv + " +ellps=GRS80", wgs}, 14.4, 50.1)[2:])
+	// the WGS84 workaround's test on the destination code (b165df1): lower-case / upper-case code, own ellipsoid
+	for _, w := range []string{"+datum=wgs84", "+datum=wgs84 +a=6370000 +b=6370000", "+datum=wgs84 +a=6377000 +rf=299.5", "+datum=WGS84 +a=6370000 +b=6370000", "+datum=WGS84 +a=6377000 +rf=299.5", "+datum=nad83 +a=6377000 +rf=299.5"} {
+		for _, sdef := range []string{k7, "+proj=longlat +datum=potsdam", "+proj=utm +zone=32 +datum=osgb36"} {
+			x, y := 9.5, 50.0
+			if strings.Contains(sdef, "utm") {
+				x, y = 535000, 5540000
+			}
+			put(trLine([]string{sdef, "+proj=longlat " + w, sdef}, x, y))
+			put(trLine([]string{sdef, "+proj=tmerc +lat_0=0 +lon_0=9 +k=0.9996 +x_0=500000 +y_0=0 " + w}, x, y))
+		}
+	}
 	put("trp2" + trLine([]string{wgs, kv + " +datum=NAD83", wgs}, 14.4, 50.1)[2:])
 	// the tables through the exported fields
 	for _, e := range ellipsoids {
